@@ -138,6 +138,7 @@ type File struct {
 	Module  string      // module name (identifier)
 	Props   []string    // properties this module serves
 	UseMods [][2]string // (package name, module name) pairs whose contracts are visible to callers
+	Relies  [][3]string // (package name, module name, invariant): a package invariant proved in another module, assumed on entry of exported methods here
 	Witness []WitnessReq
 	UFuns   map[string]*UFun
 	Axioms  []*InvDecl
@@ -159,7 +160,7 @@ type parser struct {
 }
 
 var declKw = map[string]bool{"dialect": true, "use": true, "pure": true, "pred": true, "fold": true, "invariant": true,
-	"ghost": true, "lemma": true, "module": true, "props": true, "opaque": true, "reveal": true, "logged": true, "witness": true, "safe": true, "func": true, "ufun": true, "axiom": true, "nofault": true, "requires": true, "ensures": true, "cover": true, "loop": true, "frame": true, "trusted": true, "inline": true, "inputs": true, "view": true, "closure": true}
+	"ghost": true, "lemma": true, "module": true, "props": true, "opaque": true, "reveal": true, "logged": true, "witness": true, "safe": true, "func": true, "ufun": true, "axiom": true, "nofault": true, "requires": true, "ensures": true, "cover": true, "loop": true, "frame": true, "trusted": true, "inline": true, "inputs": true, "view": true, "closure": true, "relies": true}
 
 func (p *parser) peek() token { return p.toks[p.pos] }
 func (p *parser) next() token { t := p.toks[p.pos]; p.pos++; return t }
@@ -229,6 +230,10 @@ func Parse(src string) (f *File, err error) {
 			if !p.atBoundary() {
 				f.UseMods = append(f.UseMods, [2]string{pk, p.ident()})
 			}
+		case "relies":
+			pk := p.ident()
+			mod := p.ident()
+			f.Relies = append(f.Relies, [3]string{pk, mod, p.ident()})
 		case "witness", "safe":
 			cur, curLoop = nil, nil
 			w := WitnessReq{Method: p.ident(), Safe: t.s == "safe"}
